@@ -28,8 +28,14 @@ PROPS = {
         "module": "core", "pkg": "./checks", "level": "exploration",
         "jobs": [
             {"test": "TestC02R", "quick": 30000, "thorough": 2000000, "shards_thorough": 14},
+            {"test": "TestC02S", "quick": 2500, "thorough": 120000, "shards_thorough": 14},
         ],
-        "rule": "Level R: rbc.Receiver instances (N in 3..5, 1..N-2 Byzantine members, >= 2 honest) wired by the harness; rapid draws honest sends, an "
+        "rule": "Level S: the real orchestrator (LoudScheme/SilentScheme, KeyGen and Sign) with the recorder backend, N in 3..5 participants of which 1..N-2 are "
+                "Byzantine puppets (honest for the synchronisation phases; their own MPC frames optionally muted per victim), 0..2 configured "
+                "outsiders and an unknown node; the adversary injects wire frames under its authenticated Source: conflicting payloads of a round "
+                "(incl. pairs whose sha256 digests share their first 4 bytes), acks about itself / others / honest / the receiver / outsiders with "
+                "digests of payloads in play, never sent, random, short, long, replays of logged frames, point-to-point payloads; outsiders do the "
+                "same. Level R: rbc.Receiver instances (N in 3..5, 1..N-2 Byzantine members, >= 2 honest) wired by the harness; rapid draws honest sends, an "
                 "adversary script (different payloads to different parties, acks about itself / other Byzantine / honest / the receiver / outsiders with "
                 "digests of payloads in play, never-sent or random, replays of any logged frame, point-to-point) and a weighted delivery schedule. "
                 "Oracle: over all hand-offs of all honest parties, at most one broadcast payload per (sender, round). Non-trivial = the adversary "
@@ -40,8 +46,9 @@ PROPS = {
         "module": "core", "pkg": "./checks", "level": "exploration",
         "jobs": [
             {"test": "TestC03R", "quick": 30000, "thorough": 2000000, "shards_thorough": 14},
+            {"test": "TestC03S", "quick": 2500, "thorough": 120000, "shards_thorough": 14},
         ],
-        "rule": "Same generated runs as C02 (Level R). Oracle: every broadcast hand-off is non-nil, attributed to a participant, equals a payload that "
+        "rule": "Same generated runs as C02 (Level R and Level S). Oracle: every broadcast hand-off is non-nil, attributed to a participant, equals a payload that "
                 "the attributed sender transmitted directly to this party before the hand-off, and happens at most once per (party, sender, round); "
                 "every point-to-point hand-off equals the next received frame of that link. Non-trivial as for C02.",
         "assumptions": COMMON_ASSUME,
@@ -50,6 +57,7 @@ PROPS = {
         "module": "core", "pkg": "./checks", "level": "exploration",
         "jobs": [
             {"test": "TestC04R", "quick": 30000, "thorough": 2000000, "shards_thorough": 14},
+            {"test": "TestC04S", "quick": 2500, "thorough": 120000, "shards_thorough": 14},
         ],
         "rule": "Level R, all honest, N in 2..5, up to 9 sends (broadcasts in rounds 1..3 by several senders, point-to-point), weighted delivery "
                 "schedule run to quiescence. Oracle: every broadcast handed exactly once to every other party, every point-to-point message exactly "
